@@ -61,7 +61,8 @@ Theorem C09_pruning : forall walk_sub rt ids i qn qm qs buf,
   let b' := if last_is_slash b then b else b ++ [47] in
   step_port walk_sub rt ids i (Port qn qm (Some qs)) buf =
   match rt with
-  | Some o => if o_null o b' || o_disabled o b' then WOk [] b'
+  | Some o => if o_null o b' || o_disabled o b'
+              then WOk (skipped_reports rt ids i (Port qn qm (Some qs)) b') b'
               else walk_sub (Port qn qm (Some qs)) (ids ++ [i]) b'
   | None => walk_sub (Port qn qm (Some qs)) (ids ++ [i]) b'
   end.
@@ -75,7 +76,7 @@ Theorem C09_pruning_enumerated : forall walk_sub rt ids i cs a m qs buf,
   Forall comp_wf cs -> cs <> [] -> args_wf a ->
   let q := Port (flatten (comps_segs cs) ++ a) m (Some qs) in
   step_port walk_sub rt ids i q buf =
-  run_all (fun b => if pruned rt b then WOk [] b else walk_sub q (ids ++ [i]) b)
+  run_all (fun b => if pruned rt b then WOk (skipped_reports rt ids i q b) b else walk_sub q (ids ++ [i]) b)
           (map (fun x => buf ++ x) (expand (comps_segs cs))) [] buf.
 Proof. exact step_port_subtree. Qed.
 
